@@ -357,7 +357,7 @@ BurstStep(ln) ==
        ELSE \* no exact amounts (real clock): the ledger total may only move by the direct store credits of the burst
             LET delta == SumOver([i \in DOMAIN reqs |-> IF reqs[i].op \in {"AddAccountBalance", "AddNodeBalance"} /\ rs[i].ok
                                                         THEN reqs[i].amt ELSE 0], DOMAIN reqs)
-            IN PFinish([S EXCEPT !.trial = Put(S.trial, "(burst credits)", delta)], ln)
+            IN Finish([S EXCEPT !.trial = Put(S.trial, "(burst credits)", delta)], ln)
 
 PoolStep(ln) ==
   LET a == ln.a IN
